@@ -460,3 +460,15 @@ func (sw *Swarm) AddMagnet(g *fixture.Geo, infoHash []byte) *Tor {
 	sw.Act("add magnet %x", infoHash[:4])
 	return tr
 }
+
+// Adopt starts a torrent the check built itself (tor.New with injected trackers / web seeds).
+func (sw *Swarm) Adopt(t *tor.Torrent, g *fixture.Geo) *Tor {
+	tr := &Tor{Sw: sw, T: t, Geo: g, Log: &SyncBuf{}}
+	t.Log = log.New(tr.Log, "", 0)
+	if _, err := tor.AddTorrent(sw.Ctx, t); err != nil {
+		panic(fmt.Sprintf("harness: AddTorrent: %v", err))
+	}
+	sw.Tors = append(sw.Tors, tr)
+	sw.Act("add torrent %x (adopted)", t.Hash[:4])
+	return tr
+}
